@@ -300,6 +300,8 @@ class Repo:
         self.classes: dict[str, list[ClassInfo]] = {}
         self.overrides = overrides or {}
         self.parse_errors: list[str] = []
+        self.recover_names = os.environ.get("SA_NO_NAME_RECOVERY") != "1"
+        self.renamed_locals = 0
         self._load(include_tests)
         self._link()
 
@@ -339,6 +341,9 @@ class Repo:
                 tree = ast.parse(src, filename=path)
             except SyntaxError as e:
                 raise AnalysisError(f"parse error in {rel}: {e}") from e
+            if self.recover_names:
+                from .localnames import recover
+                self.renamed_locals += recover(tree, src, rel)
             set_parents(tree)
             modname = rel[:-3].replace(os.sep, ".")
             if modname.endswith(".__init__"):
